@@ -72,16 +72,12 @@ func (cj *CookieJar) getByHostAndPath(host, path []byte) []*fasthttp.Cookie {
 	}
 
 	var (
-		err     error
 		cookies []*fasthttp.Cookie
 		hostStr = utils.UnsafeString(host)
 	)
 
 	// port must not be included.
-	hostStr, _, err = net.SplitHostPort(hostStr)
-	if err != nil {
-		hostStr = utils.UnsafeString(host)
-	}
+	hostStr = jarHostname(hostStr)
 	// get cookies deleting expired ones
 	cookies = cj.getCookiesByHost(hostStr)
 
@@ -168,11 +164,19 @@ func (cj *CookieJar) SetByHost(host []byte, cookies ...*fasthttp.Cookie) {
 // its port (Get looks cookies up that way), as a copy - the key stays in the map after the
 // caller's buffer has been reused, and assigning to an existing key replaces the stored key.
 func jarHostKey(host []byte) string {
-	hostStr := utils.UnsafeString(host)
-	if h, _, err := net.SplitHostPort(hostStr); err == nil {
-		hostStr = h
+	return utils.CopyString(jarHostname(utils.UnsafeString(host)))
+}
+
+// jarHostname strips the port, and the brackets of an IPv6 literal with or without port,
+// so that "[::1]:8080" and "[::1]" name the same host.
+func jarHostname(host string) string {
+	if h, _, err := net.SplitHostPort(host); err == nil {
+		return h
 	}
-	return utils.CopyString(hostStr)
+	if len(host) > 2 && host[0] == '[' && host[len(host)-1] == ']' {
+		return host[1 : len(host)-1]
+	}
+	return host
 }
 
 // SetKeyValue sets a cookie for the specified host with the given key and value.
